@@ -65,6 +65,8 @@ pub struct Ctx {
 	caps: Mutex<Vec<String>>,
 	violations: Mutex<BTreeMap<String, Violation>>,
 	pub replay_mode: bool,
+	/// replay by re-enumeration: only violations whose case equals this value are recorded
+	pub replay_filter: Option<Value>,
 }
 
 impl Ctx {
@@ -91,6 +93,7 @@ impl Ctx {
 			caps: Mutex::new(Vec::new()),
 			violations: Mutex::new(BTreeMap::new()),
 			replay_mode: false,
+			replay_filter: None,
 		}
 	}
 
@@ -160,6 +163,11 @@ impl Ctx {
 	/// failing cases with one cause collapse into one line; the first reported case (enumeration
 	/// is simplest-first) is kept as the replayable artefact.
 	pub fn violation(&self, signature: &str, description: &str, replay: Value) {
+		if let Some(f) = &self.replay_filter {
+			if *f != replay {
+				return;
+			}
+		}
 		let mut v = self.violations.lock().unwrap();
 		match v.get_mut(signature) {
 			Some(e) => e.count += 1,
@@ -200,7 +208,7 @@ impl Ctx {
 				let path = if self.replay_mode {
 					PathBuf::from("(replay)")
 				} else {
-					crate::findings::write_replay(&self.id, sig, &v.description, &v.replay)
+					crate::findings::write_replay(&self.id, self.tier.as_str(), sig, &v.description, &v.replay)
 				};
 				println!("VIOLATION property={} replay={}", self.id, path.display());
 				println!("  signature: {sig}");
